@@ -132,3 +132,265 @@ theorem braceScanC_eq (raw : Bytes) (s0 : Nat) : ∀ (fuel : Nat) (rest : Bytes)
           · obtain ⟨a, b', c⟩ := ih.1 n h
             exact ⟨a, by omega, c⟩
           · exact ih.2 h
+
+theorem sliceC_take (l : Bytes) (n : Nat) (site : String) (h : n ≤ l.length) : sliceC l 0 n site = .ok (l.take n) := by
+  simp [sliceC, h]
+
+theorem sliceC_drop (l : Bytes) (n : Nat) (site : String) (h : n ≤ l.length) : sliceC l n l.length site = .ok (l.drop n) := by
+  simp only [sliceC, h, Nat.le_refl, and_self, ite_true]
+  congr 1
+  apply List.take_of_length_le
+  simp
+
+theorem idxOf?_lt (l : Bytes) (b : Byte) (p : Nat) (h : l.idxOf? b = some p) : p < l.length := by
+  have := List.idxOf?_eq_some_iff.1 h
+  obtain ⟨hp, _⟩ := this
+  exact hp
+
+/-- the split of the brace content at the first colon -/
+theorem paramSplitC_eq (content : Bytes) :
+    paramSplitC content = .ok (match content.idxOf? 58 with
+      | some p => (content.take p, some (content.drop (p + 1)))
+      | none => (content, none)) := by
+  unfold paramSplitC
+  cases h : content.idxOf? 58 with
+  | none => rfl
+  | some p =>
+    have hp := idxOf?_lt content 58 p h
+    simp only [sliceC_take content p _ (by omega), sliceC_drop content (p + 1) _ (by omega)]
+
+theorem paramNameC_eq (name : Bytes) : paramNameC name = .ok (if name.head? == some 42 then name.drop 1 else name) := by
+  unfold paramNameC
+  by_cases h : (name.head? == some 42) = true
+  · simp only [h, ite_true]
+    have : 1 ≤ name.length := by
+      cases name with
+      | nil => simp at h
+      | cons a b => simp
+    exact sliceC_drop name 1 _ this
+  · simp only [h, ite_false]
+    rfl
+
+/-- the validation tail of `parse_parameter_part` -/
+theorem paramFinishC_eq (raw : Bytes) (cursor e len : Nat) (name0 : Bytes) (cons : Option Bytes) :
+    paramFinishC raw cursor e len name0 cons =
+      liftT (if name0.isEmpty then .error (.emptyParameter raw cursor len) else
+        let isWild := name0.head? == some 42
+        let name := if isWild then name0.drop 1 else name0
+        if isWild && name.isEmpty then .error (.emptyWildcard raw cursor len) else
+        if name.any (invalidChars.contains ·) then .error (.invalidParameter raw name cursor len) else
+        match cons with
+        | some c =>
+          if c.isEmpty then .error (.emptyConstraint raw cursor len)
+          else if c.any (invalidChars.contains ·) then .error (.invalidConstraint raw c cursor len)
+          else .ok (.par (if isWild then .wildC else .dynC) {name := name, cons := c}, e + 1)
+        | none => .ok (.par (if isWild then .wild else .dyn) {name := name}, e + 1)) := by
+  unfold paramFinishC
+  by_cases h0 : name0.isEmpty = true
+  · simp only [h0, ite_true]; rfl
+  · simp only [h0, Bool.false_eq_true, ite_false, paramNameC_eq]
+    by_cases h1 : ((name0.head? == some 42) && (if (name0.head? == some 42) = true then name0.drop 1 else name0).isEmpty) = true
+    · simp only [h1, ite_true]; rfl
+    · simp only [h1, Bool.false_eq_true, ite_false]
+      by_cases h2 : ((if (name0.head? == some 42) = true then name0.drop 1 else name0).any (invalidChars.contains ·)) = true
+      · simp only [h2, ite_true]; rfl
+      · simp only [h2, Bool.false_eq_true, ite_false]
+        cases cons with
+        | none => rfl
+        | some c =>
+          simp only []
+          by_cases h3 : c.isEmpty = true
+          · simp only [h3, ite_true]; rfl
+          · simp only [h3, Bool.false_eq_true, ite_false]
+            by_cases h4 : (c.any (invalidChars.contains ·)) = true
+            · simp only [h4, ite_true]; rfl
+            · simp only [h4, Bool.false_eq_true, ite_false]; rfl
+
+/-- **`parse_parameter_part`**: the position-based transcription is the list-based one -/
+theorem parseParamC_eq (raw : Bytes) (cursor : Nat) (after : Bytes) (ha : after = raw.drop (cursor + 1)) :
+    parseParamC raw cursor = liftT (parseParam raw cursor after) := by
+  have hb := braceScanC_eq raw (cursor + 1) (raw.length + 1) after 1 0 (by simpa using ha) (Nat.le_refl _)
+    (by rw [ha]; simp; omega)
+  unfold parseParamC parseParam
+  cases hbe : braceEnd after 1 0 with
+  | none =>
+    obtain ⟨e', c, hc, hs⟩ := hb.2 hbe
+    simp only [Nat.add_zero] at hs
+    simp only [hs, hc, ne_eq, not_false_eq_true, ite_true]
+    rfl
+  | some n =>
+    obtain ⟨hs, _, hlt⟩ := hb.1 n hbe
+    simp only [Nat.add_zero] at hs
+    have hcont : sliceC raw (cursor + 1) (cursor + 1 + n) "param: input[start..end]" = .ok (after.take n) := by
+      simp only [sliceC]
+      rw [if_pos ⟨by omega, by omega⟩, ha]
+      congr 2
+      omega
+    have hsub : subC (cursor + 1 + n) cursor "param: end - cursor" = .ok (1 + n) := by
+      simp only [subC]
+      rw [if_pos (by omega)]
+      congr 1
+      omega
+    simp only [hs, ne_eq, not_true_eq_false, ite_false, hcont, hsub, paramSplitC_eq]
+    by_cases hce : (after.take n).isEmpty = true
+    · simp only [hce, ite_true]; rfl
+    · simp only [hce, Bool.false_eq_true, ite_false]
+      have hlen : cursor + 1 + n - cursor + 1 = 1 + n + 1 := by omega
+      rw [hlen]
+      cases hidx : (after.take n).idxOf? 58 with
+      | none => simp only []; exact paramFinishC_eq raw cursor (cursor + 1 + n) (1 + n + 1) _ _
+      | some p => simp only []; exact paramFinishC_eq raw cursor (cursor + 1 + n) (1 + n + 1) _ _
+
+theorem parseParam_next_gt (raw : Bytes) (cursor : Nat) (after : Bytes) (part : Part) (next : Nat)
+    (h : parseParam raw cursor after = .ok (part, next)) : cursor + 2 ≤ next := by
+  unfold parseParam at h
+  split at h
+  · cases h
+  · rename_i n hn
+    simp only at h
+    repeat' split at h
+    all_goals first | (cases h; done) | (injection h with h; injection h with h1 h2; omega)
+
+theorem drop_drop_sub (raw : Bytes) (cursor next : Nat) (h : cursor ≤ next) : (raw.drop cursor).drop (next - cursor) = raw.drop next := by
+  rw [List.drop_drop]
+  congr 1
+  omega
+
+/-- **the `while cursor < raw.len()` loop of `parse_template`** -/
+theorem parseLoopC_eq (raw : Bytes) : ∀ (fuel : Nat) (rest : Bytes) (cursor : Nat) (seen : List (Bytes × Nat × Nat)) (parts : List Part),
+    rest = raw.drop cursor → rest.length < fuel →
+    parseLoopC raw fuel cursor seen parts = liftT (parseLoop raw fuel rest cursor seen parts)
+  | 0, _, _, _, _, _, hf => by omega
+  | fuel + 1, rest, cursor, seen, parts, hr, hf => by
+    cases rest with
+    | nil =>
+      have hn := drop_nil_facts raw cursor hr.symm
+      simp only [parseLoopC, parseLoop, hn, ite_false]
+      rfl
+    | cons b after =>
+      obtain ⟨hl, hb, hd⟩ := drop_cons_facts raw cursor b after hr.symm
+      simp only [parseLoopC, parseLoop, hl, ite_true, getB, hb]
+      by_cases h123 : b = 123
+      · subst h123
+        simp only [ite_true]
+        rw [parseParamC_eq raw cursor after hd.symm]
+        cases hpp : parseParam raw cursor after with
+        | error e => rfl
+        | ok pn =>
+          obtain ⟨part, next⟩ := pn
+          have hnext := parseParam_next_gt raw cursor after part next hpp
+          simp only [liftT_ok]
+          have hsub : subC next cursor "template: next_cursor - cursor" = .ok (next - cursor) := by
+            simp only [subC]; rw [if_pos (by omega)]
+          have hrest : ((123 : Byte) :: after).drop (next - cursor) = raw.drop next := by
+            rw [hr]; exact drop_drop_sub raw cursor next (by omega)
+          have hfuel : (raw.drop next).length < fuel := by
+            simp only [List.length_drop]
+            simp only [List.length_cons] at hf
+            have : ((123 : Byte) :: after).length = raw.length - cursor := by rw [hr]; simp
+            simp only [List.length_cons] at this
+            omega
+          -- the recursive calls
+          have rec1 : ∀ seen' parts', parseLoopC raw fuel next seen' parts' =
+              liftT (parseLoop raw fuel (((123 : Byte) :: after).drop (next - cursor)) next seen' parts') := by
+            intro seen' parts'
+            rw [hrest]
+            exact parseLoopC_eq raw fuel (raw.drop next) next seen' parts' rfl hfuel
+          have dup : (match touchC raw seen cursor next with
+              | .error x => .error x
+              | .ok () =>
+                match subC next cursor "template: next_cursor - cursor" with
+                | .error x => .error x
+                | .ok d =>
+                  match partName part with
+                  | some name =>
+                    match seen.find? (fun x => x.1 == name) with
+                    | some (_, st, ln) => .error (.terr (.duplicateParameter raw name st ln cursor d))
+                    | none => parseLoopC raw fuel next (seen ++ [(name, cursor, d)]) (parts ++ [part])
+                  | none => parseLoopC raw fuel next seen (parts ++ [part])) =
+              liftT (match seen.getLast? with
+                | some (_, st, ln) =>
+                  if cursor = st + ln then .error (.touchingParameters raw st (next - st)) else
+                  parseLoop.parseLoopDup raw fuel ((123 : Byte) :: after) cursor seen parts part next
+                | none => parseLoop.parseLoopDup raw fuel ((123 : Byte) :: after) cursor seen parts part next) := by
+            have hdup : (match subC next cursor "template: next_cursor - cursor" with
+                | .error x => .error x
+                | .ok d =>
+                  match partName part with
+                  | some name =>
+                    match seen.find? (fun x => x.1 == name) with
+                    | some (_, st, ln) => .error (.terr (.duplicateParameter raw name st ln cursor d))
+                    | none => parseLoopC raw fuel next (seen ++ [(name, cursor, d)]) (parts ++ [part])
+                  | none => parseLoopC raw fuel next seen (parts ++ [part])) =
+                liftT (parseLoop.parseLoopDup raw fuel ((123 : Byte) :: after) cursor seen parts part next) := by
+              rw [hsub]
+              unfold parseLoop.parseLoopDup
+              cases hpn : partName part with
+              | none => simp only []; exact rec1 _ _
+              | some name =>
+                simp only []
+                cases hfd : seen.find? (fun x => x.1 == name) with
+                | none => simp only []; exact rec1 _ _
+                | some x => obtain ⟨nm, st, ln⟩ := x; rfl
+            unfold touchC
+            cases hgl : seen.getLast? with
+            | none => simp only []; exact hdup
+            | some x =>
+              obtain ⟨nm, st, ln⟩ := x
+              simp only []
+              by_cases htc : cursor = st + ln
+              · simp only [htc, ite_true]
+                have : subC next st "template: next_cursor - start" = .ok (next - st) := by
+                  simp only [subC]; rw [if_pos (by omega)]
+                rw [this]
+                rfl
+              · simp only [htc, ite_false]; exact hdup
+          exact dup
+      · simp only [h123, ite_false]
+        by_cases h125 : b = 125
+        · simp only [h125, ite_true]; rfl
+        · simp only [h125, ite_false]
+          have hst := parseStaticC_eq raw (raw.length + 1) (b :: after) cursor [] hr (by rw [hr]; simp; omega)
+          have hadv := parseStatic_advances b after cursor [] h123 h125 raw hr
+          rw [hst.1]
+          simp only []
+          generalize hps : parseStatic (b :: after) cursor [] = res at hst hadv
+          obtain ⟨pre, next, rest'⟩ := res
+          simp only at hst hadv ⊢
+          have hfuel : rest'.length < fuel := by
+            rw [hst.2.1]
+            simp only [List.length_drop]
+            simp only [List.length_cons] at hf
+            have : (b :: after).length = raw.length - cursor := by rw [hr]; simp
+            simp only [List.length_cons] at this
+            omega
+          exact parseLoopC_eq raw fuel rest' next seen (parts ++ [.stat pre]) hst.2.1 hfuel
+
+/-- **`parse_template`** (one expansion): same parts, same errors, same positions -/
+theorem parseTemplateC_eq (raw : Bytes) : parseTemplateC raw = liftT (parseTemplate raw) := by
+  unfold parseTemplateC parseTemplate
+  cases raw with
+  | nil =>
+    simp only [List.isEmpty_nil, Bool.not_true, Bool.false_eq_true, ite_false, Bool.false_and]
+    exact parseLoopC_eq [] _ [] 0 [] [] rfl (by simp)
+  | cons b r =>
+    simp only [List.isEmpty_cons, Bool.not_false, ite_true, getB, List.getElem?_cons_zero, List.head?_cons, Bool.true_and]
+    by_cases hb : b = 47
+    · subst hb
+      simp only [ne_eq, not_true_eq_false, ite_false, bne_self_eq_false, Bool.false_eq_true]
+      exact parseLoopC_eq _ _ _ 0 [] [] rfl (by simp)
+    · have : (some b != some 47) = true := by simp [hb]
+      simp only [ne_eq, hb, not_false_eq_true, ite_true, this]
+      rfl
+
+theorem mapExceptC_eq {α β} (fC : α → Except CErr β) (f : α → Except TErr β) (h : ∀ a, fC a = liftT (f a)) :
+    ∀ (l : List α), mapExceptC fC l = liftT (mapExcept f l)
+  | [] => rfl
+  | a :: as => by
+    simp only [mapExceptC, mapExcept, h a]
+    cases f a with
+    | error e => rfl
+    | ok b =>
+      simp only [liftT]
+      rw [mapExceptC_eq fC f h as]
+      cases mapExcept f as <;> rfl
